@@ -243,6 +243,9 @@ class Store:
                                                             '<no content>')),
                                tuple(now.__dict__.get('_version_seal_')
                                      or ()))
+                # the caller owns what it was given: an algorithm may refine
+                # a loaded value in place; no later load may see that
+                now.content = ['scribbled on by an earlier caller', t, run]
         return got
 
     def expect_load(self, t, run, i, j, k):
